@@ -6,7 +6,8 @@
 From Coq Require Import String ZArith Bool Arith List Lia Reals QArith.
 Import ListNotations.
 From FV.C13 Require Import Model ProofsInc Props.
-From FV.C14 Require Import Model Proofs.
+From FV.C14 Require Import Model Proofs Prog ProofsProg.
+From FV.C14.gen Require Import E2NProg.
 Open Scope nat_scope.
 
 (* ---------------------------------------------------- nodal -> elemental *)
@@ -42,9 +43,9 @@ Proof. exact n2e_affine. Qed.
    metrics): result_i = sum_{e touching i} w_e v_e / sum_{e touching i} w_e;
    hence constants are preserved and, for positive weights, the result lies
    between the smallest and the largest touching value; every field width *)
-Theorem C14_e2n_mean : forall m o wm v w res,
-  e2n ROps m false o wm v w = Some res ->
-  exists Im wt, incidence m o = Some Im /\ weights_described ROps m Im wm wt /\
+Theorem C14_e2n_mean : forall m o rn wm inc v w res,
+  e2n_call ROps m "mean" o rn wm inc v w = Some res ->
+  exists Im wt, incidence_in_use m o inc = Some Im /\ weights_described ROps m Im rn wm wt /\
     length res = bnr Im /\
     (forall i c, i < bnr Im -> c < w -> wsum Im wt i <> 0%R ->
        cell ROps res i c =
@@ -59,6 +60,12 @@ Theorem C14_e2n_mean : forall m o wm v w res,
        (forall j, j < bnc Im -> entry Im i j = true -> (lo <= cell ROps v j c <= hi)%R) ->
        (lo <= cell ROps res i c <= hi)%R).
 Proof. exact e2n_mean_spec. Qed.
+
+(* raise_negative_volume=True: the implicit weights that reach the mean are
+   never negative (a negative metric raises instead) *)
+Theorem C14_validated_weights_nonneg : forall m Im wt by_id mu,
+  weights_described ROps m Im true (WImplicit by_id mu) wt -> forall j, (0 <= nth j wt 0)%R.
+Proof. exact weights_validated_nonneg. Qed.
 
 (* the sum of positive touching weights is not zero *)
 Theorem C14_weight_sum_positive : forall Im wt i j,
@@ -103,9 +110,9 @@ Qed.
 (* every element's value is split into equal shares among its nodes, so the
    grand total is conserved (each column of the weight matrix sums to one),
    for every field width *)
-Theorem C14_e2n_effective : forall m o wm v w res,
-  e2n ROps m true o wm v w = Some res ->
-  exists Im, incidence m o = Some Im /\ length res = bnr Im /\
+Theorem C14_e2n_effective : forall m o rn wm inc v w res,
+  e2n_call ROps m "effective" o rn wm inc v w = Some res ->
+  exists Im, incidence_in_use m o inc = Some Im /\ length res = bnr Im /\
     (forall i c, i < bnr Im -> c < w ->
        cell ROps res i c =
        rsum (map (fun j => if entry Im i j then cell ROps v j c / INR (col_count Im j) else 0)%R
@@ -116,6 +123,77 @@ Theorem C14_e2n_effective : forall m o wm v w res,
        = rsum (map (fun j => cell ROps v j c) (seq 0 (bnc Im)))).
 Proof. exact e2n_effective_spec. Qed.
 
+(* ----------------------------------- the expressions the code contains (T) *)
+(* gen/E2NProg.v is written on every run by translate/c14_e2n.py, which executes
+   convert_elemental2nodal symbolically (helpers inlined) for every mode
+   literal + an unknown mode, weight False / None / array, incidence given /
+   not given.  What it read is the reference table ... *)
+Theorem C14_e2n_program_translated : forall mode wk given,
+  e2n_prog mode wk given = e2n_ref mode wk given.
+Proof.
+  intros mode wk given. unfold e2n_prog, e2n_ref, inc_ref.
+  repeat match goal with |- context [String.eqb mode ?s] => destruct (String.eqb mode s) end;
+    destruct wk, given; reflexivity.
+Qed.
+
+Theorem C14_e2n_defaults_translated : e2n_defaults = defaults_ref.
+Proof. reflexivity. Qed.
+
+(* ... whose interpretation over the reals is the hand model, for every mesh,
+   mode string, flags, weight and incidence argument, field and width *)
+Theorem C14_e2n_translated_is_model : forall m mode o rn wm inc v w,
+  run_e2n_prog ROps e2n_prog m mode o rn wm inc v w = e2n_call ROps m mode o rn wm inc v w.
+Proof.
+  intros. rewrite <- ref_program_is_model. unfold run_e2n_prog.
+  now rewrite C14_e2n_program_translated.
+Qed.
+
+(* so the conversion laws hold of the translated program itself *)
+Theorem C14_e2n_translated_mean : forall m o rn wm inc v w res,
+  run_e2n_prog ROps e2n_prog m "mean" o rn wm inc v w = Some res ->
+  exists Im wt, incidence_in_use m o inc = Some Im /\ weights_described ROps m Im rn wm wt /\
+    length res = bnr Im /\
+    (forall i c, i < bnr Im -> c < w -> wsum Im wt i <> 0%R ->
+       cell ROps res i c =
+       (rsum (map (fun j => if entry Im i j then nth j wt 0 * cell ROps v j c else 0)
+                  (seq 0 (bnc Im))) / wsum Im wt i)%R) /\
+    (forall i c lo hi j0, i < bnr Im -> c < w ->
+       (forall j, j < bnc Im -> entry Im i j = true -> (0 < nth j wt 0)%R) ->
+       j0 < bnc Im -> entry Im i j0 = true ->
+       (forall j, j < bnc Im -> entry Im i j = true -> (lo <= cell ROps v j c <= hi)%R) ->
+       (lo <= cell ROps res i c <= hi)%R).
+Proof.
+  intros m o rn wm inc v w res H. rewrite C14_e2n_translated_is_model in H.
+  destruct (C14_e2n_mean _ _ _ _ _ _ _ _ H) as [Im [wt [H1 [H2 [H3 [H4 [_ H6]]]]]]].
+  exists Im, wt. auto.
+Qed.
+
+Theorem C14_e2n_translated_effective : forall m o rn wm inc v w res,
+  run_e2n_prog ROps e2n_prog m "effective" o rn wm inc v w = Some res ->
+  exists Im, incidence_in_use m o inc = Some Im /\ length res = bnr Im /\
+    ((forall j, j < bnc Im -> exists i, i < bnr Im /\ entry Im i j = true) ->
+     forall c, c < w ->
+       rsum (map (fun i => cell ROps res i c) (seq 0 (bnr Im)))
+       = rsum (map (fun j => cell ROps v j c) (seq 0 (bnc Im)))).
+Proof.
+  intros m o rn wm inc v w res H. rewrite C14_e2n_translated_is_model in H.
+  destruct (C14_e2n_effective _ _ _ _ _ _ _ _ H) as [Im [H1 [H2 [_ H4]]]].
+  exists Im. auto.
+Qed.
+
+(* an unknown mode string, a wrong length, a metric that is negative while
+   raise_negative_volume is set: no result *)
+Theorem C14_e2n_rejects : forall (T : Type) (O : Ops T) m mode o rn wm inc v w,
+  (mode <> "effective"%string /\ mode <> "mean"%string) \/
+  length v <> length (elems_of (m_blocks m)) ->
+  e2n_call O m mode o rn wm inc v w = None.
+Proof.
+  intros T O m mode o rn wm inc v w [[H1 H2]|H]; unfold e2n_call.
+  - apply String.eqb_neq in H1, H2. rewrite H1, H2.
+    destruct (negb _); [reflexivity|]. destruct (incidence_in_use m o inc); reflexivity.
+  - apply Nat.eqb_neq in H. rewrite H. reflexivity.
+Qed.
+
 (* ---------------------------------------------------------- non-vacuity *)
 Definition mesh_c14 : mesh :=
   mkmesh [10; 5; 7; 3; 99; 42]%Z [("tri", [(30, [10; 5; 7]); (20, [5; 7; 3])])]%Z%string.
@@ -125,10 +203,26 @@ Example C14_nonvacuous :
     = Some [[2#1]; [5#1]; [5#1]; [6#1]; [0#1]; [0#1]]%Q /\
   e2n QOps mesh_c14 true false WFalse [[3#1]; [6#1]]%Q 1
     = Some [[1#1]; [3#1]; [3#1]; [2#1]; [0#1]; [0#1]]%Q /\
-  n2e QOps mesh_c14 [[3#1]; [6#1]; [0#1]; [9#1]; [1#1]; [1#1]]%Q 1 = Some [[3#1]; [5#1]]%Q.
+  n2e QOps mesh_c14 [[3#1]; [6#1]; [0#1]; [9#1]; [1#1]; [1#1]]%Q 1 = Some [[3#1]; [5#1]]%Q /\
+  (* the translated program computes the same, also with an `incidence=` argument *)
+  run_e2n_prog QOps e2n_prog mesh_c14 "mean" false true (WExplicit [1#1; 3#1]%Q) None [[2#1]; [6#1]]%Q 1
+    = Some [[2#1]; [5#1]; [5#1]; [6#1]; [0#1]; [0#1]]%Q /\
+  run_e2n_prog QOps e2n_prog mesh_c14 "effective" false true WFalse
+    (Some (mkb 2 2 [[true; false]; [true; true]])) [[3#1]; [6#1]]%Q 1
+    = Some [[3#2]; [15#2]]%Q /\
+  (* a negative metric: raises when the flag is set, is used as it is otherwise *)
+  e2n_call QOps mesh_c14 "mean" false true
+    (WImplicit true (table_lookup [(20, -1#1); (30, 3#1)]%Z%Q)) None [[2#1]; [6#1]]%Q 1 = None /\
+  e2n_call QOps mesh_c14 "mean" false false
+    (WImplicit true (table_lookup [(20, -1#1); (30, 3#1)]%Z%Q)) None [[2#1]; [6#1]]%Q 1
+    = Some [[2#1]; [0#1]; [0#1]; [6#1]; [0#1]; [0#1]]%Q.
 Proof. vm_compute. repeat split; reflexivity. Qed.
 
 Print Assumptions C14_n2e_mean.
 Print Assumptions C14_n2e_affine.
 Print Assumptions C14_e2n_mean.
 Print Assumptions C14_e2n_effective.
+Print Assumptions C14_e2n_program_translated.
+Print Assumptions C14_e2n_translated_is_model.
+Print Assumptions C14_e2n_translated_mean.
+Print Assumptions C14_e2n_translated_effective.
